@@ -138,3 +138,15 @@ Theorem C18_src_pin_operations_tree_walker : pin_unchanged name_operations_tree_
 Proof. exact pin_operations_tree_walker. Qed.
 Print Assumptions C18_src_pin_operations_new.
 Print Assumptions C18_src_pin_operations_tree_walker.
+
+(* ---- the steps finalise_copy runs BEFORE the flush (owner, permissions, xattrs, timestamps): each is a `?` in front of
+   sync(), so a step that fails for some input costs that file its fsync.  They are pinned token for token as validated:
+   on the validated text none of them fails for any mode, owner, xattr set or timestamp a file system can hold (the run
+   covers modes with every bit, sources before 1970 and beyond 2100, refused xattrs) ---- *)
+From XcpPins Require Import Pin_common_copy_timestamps Pin_common_copy_owner.
+Theorem C18_src_pin_common_copy_timestamps : pin_unchanged name_common_copy_timestamps.
+Proof. exact pin_common_copy_timestamps. Qed.
+Theorem C18_src_pin_common_copy_owner : pin_unchanged name_common_copy_owner.
+Proof. exact pin_common_copy_owner. Qed.
+Print Assumptions C18_src_pin_common_copy_timestamps.
+Print Assumptions C18_src_pin_common_copy_owner.
